@@ -109,6 +109,75 @@ theorem interp_queryBucketEventcount (r : Reads D) (enc : Enc D) (S E : Int) (ot
   simp only [Except.map]
   rw [call_queryBucketEventcount _ _ lookup_queryBucketEventcount, dsApply_queryBucketEventcount]
 
+theorem call_findBucket (apply : Apply) (e : Entry)
+    (he : lookupEntry Registry.registry nameFindBucket = some e) (f : Str) :
+    callBuiltin apply e [.str f] = catchTypeError (apply nameFindBucket [.ds, .str f]) := by
+  rw [lookup_findBucket] at he
+  cases he
+  rfl
+
+theorem dsApply_findBucket (r : Reads D) (enc : Enc D) (S E : Int) (other : Apply) (f : Str) :
+    dsApply r enc S E other nameFindBucket [.ds, .str f] =
+      match findBucket r (String.ofList f) none with
+      | .ok b => .ok (.str b.toList)
+      | .error e => .error (enc.err e) := by
+  unfold dsApply
+  have h1 : ¬ nameFindBucket = nameQueryBucket := by decide
+  have h2 : ¬ nameFindBucket = nameQueryBucketEventcount := by decide
+  simp only [h1, h2, if_false, if_true]
+  cases findBucket r (String.ofList f) none <;> rfl
+
+/-- `find_bucket(t)` (no hostname filter) where the argument expression evaluates to the string `f` -/
+theorem interp_findBucket (r : Reads D) (enc : Enc D) (S E : Int) (other : Apply) (t : Tok)
+    (ns ns' : Ns) (f : Str)
+    (ht : interp Registry.registry (dsApply r enc S E other) t ns = .ok (.str f, ns')) :
+    interp Registry.registry (dsApply r enc S E other) (.call nameFindBucket [t]) ns =
+      (catchTypeError (match findBucket r (String.ofList f) none with
+        | .ok b => .ok (.str b.toList)
+        | .error e => .error (enc.err e))).map (fun v => (v, ns')) := by
+  rw [interp, lookup_findBucket]
+  simp only []
+  rw [interpList, ht]
+  simp only []
+  rw [interpList]
+  simp only [Except.map]
+  rw [call_findBucket _ _ lookup_findBucket, dsApply_findBucket]
+
+/-- what `find_bucket` returns is a listed bucket whose id contains the filter string -/
+theorem findBucketLoop_ok (r : Reads D) (f : String) (host : Option String) :
+    ∀ (l : List String) (b : String), findBucketLoop r f host l = .ok b →
+      b ∈ l ∧ isInfixB f.toList b.toList = true ∧
+      (∀ h, truthyHost host = some h → r.hostname b = some h)
+  | [], b, h => by simp [findBucketLoop] at h
+  | x :: rest, b, h => by
+    unfold findBucketLoop at h
+    split at h
+    · rename_i hin
+      split at h
+      · cases h
+      · rename_i hn hhn
+        split at h
+        · rename_i hh hth
+          split at h
+          · rename_i heq
+            injection h with h
+            subst h
+            exact ⟨List.mem_cons_self, hin, fun h' hh' => by rw [hth] at hh'; cases hh'; rw [hhn, heq]⟩
+          · obtain ⟨h1, h2, h3⟩ := findBucketLoop_ok r f host rest b h
+            exact ⟨List.mem_cons_of_mem _ h1, h2, h3⟩
+        · rename_i hth
+          injection h with h
+          subst h
+          exact ⟨List.mem_cons_self, hin, fun h' hh' => by rw [hth] at hh'; cases hh'⟩
+    · obtain ⟨h1, h2, h3⟩ := findBucketLoop_ok r f host rest b h
+      exact ⟨List.mem_cons_of_mem _ h1, h2, h3⟩
+
+theorem findBucket_ok (r : Reads D) (f : String) (host : Option String) (b : String)
+    (h : findBucket r f host = .ok b) :
+    b ∈ r.buckets ∧ isInfixB f.toList b.toList = true ∧
+      (∀ h, truthyHost host = some h → r.hostname b = some h) :=
+  findBucketLoop_ok r f host r.buckets b h
+
 /-! ## what `queryBucket` returns (C03 transported) -/
 
 theorem isSome_of_view {α : Type} {o : Option α} {a : α} (h : o = some a) : o.isSome = true := by
